@@ -11,10 +11,14 @@
    CHECKED BY EXECUTION: every printable stage (Core, focused Core, AxCut, linearized AxCut, the
    three assembly outputs) compared byte for byte, up to the numbering of generated labels in
    assembly code, between two compilations in one process, a compilation after unrelated
-   compilations, and three fresh processes (fresh hash seeds).  Not proved: that the label
-   counter only renumbers labels (checked by the normalising comparison). *)
+   compilations, and three fresh processes (fresh hash seeds).  That the label counter only
+   renumbers labels is proved in round 2 (end of this file). *)
 From Coq Require Import List NArith Permutation.
 From SCC Require Import Lang.AxSyn Model.Linearize Model.Backend Model.X86 Proof.Determinism.
+From Coq Require Import String Bool.
+From SCC Require Model.A64 Model.RV Sem.X86Wf Sem.A64Wf Sem.RVWf.
+From SCC Require Import Sem.LabelGuard Proof.LabelStrings Proof.LabelGen Proof.LabelShift Proof.LabelsX86 Proof.LabelsA64 Proof.LabelsRV
+  Proof.ShiftX86 Proof.ShiftA64 Proof.ShiftRV Proof.ShiftThms.
 Import ListNotations.
 
 Theorem C17_liveness_sets_matter_only_by_membership :
@@ -89,3 +93,122 @@ Example C17_sort_example :
   /\ sort_by_name (fun s : string => s) ["Zed"; "List[i64]"; "Pair[i64, i64]"]%string = ["List[i64]"; "Pair[i64, i64]"; "Zed"]%string.
 Proof. split; reflexivity. Qed.
 Print Assumptions C17_sort_example.
+(* ======================= round 2: the label counter only renumbers labels =======================
+   The Rust label counter is a process-global static (axcut2backend/src/fresh_labels.rs): what was
+   compiled before in the same process shifts every generated number.  PROVED (Proof/LabelShift.v,
+   Shift{X86,A64,RV}.v, ShiftThms.v): for every back end whose emitters commute with a renaming of
+   labels (shift_ok), `translate` / `compile` started at counter c2 return the code of the run started at
+   c1 with every generated label lab<k>, <Type>_<k>, <Type>_<k>_<Xtor> renamed to the number k - c1 + c2
+   (definition labels, `cleanup`, `asm_main` unchanged), the same error if any, and the final counter
+   shifted; instantiated for the three back ends and their complete routines.  The renaming is a FUNCTION
+   on label texts (rename_label, built on LabelStrings.decode) under renaming_guard = the name-digits guard
+   of C14 plus "calls go to lower-case names"; without it no function on texts relates the two outputs
+   (C17_translate_shift_refuted - the label texts are ambiguous, known finding label-collision-name-digits).
+   Connection to the run-time check (harness/src/cmd_det.rs normalize_labels renumbers the numbers of
+   generated labels by first occurrence before comparing): C17_normal_form - renumbering both outputs to
+   base 0 gives IDENTICAL code, so any renumbering that depends only on the order of first occurrences
+   (C17_first_occurrence_numbering_invariant) maps them to the same text.  The tokenisation of the printed
+   text by the normaliser is not modelled (cmd_det.rs stays in the trusted list). *)
+
+Theorem C17_translate_shift :
+  forall (Code Temp : Type) (B : backend Code Temp) (cdefs crefs : Code -> list string),
+    labels_ok B cdefs crefs ->
+    forall (cmap : (string -> string) -> Code -> Code),
+      (forall rho a b, (forall k, (a < k)%N -> rho (pr (GLab k)) = pr (GLab (sh a b k))) -> shift_ok B cmap rho a b) ->
+      forall (types : list tydecl) (ds : list def) (c1 c2 : N),
+        renaming_guard ds = true ->
+        translate B types ds c2 = shift_result cmap ds c1 c2 (translate B types ds c1).
+Proof. exact @translate_shift. Qed.
+Print Assumptions C17_translate_shift.
+
+Theorem C17_normal_form :
+  forall (Code Temp : Type) (B : backend Code Temp) (cdefs crefs : Code -> list string),
+    labels_ok B cdefs crefs ->
+    forall (cmap : (string -> string) -> Code -> Code),
+      (forall rho a b, (forall k, (a < k)%N -> rho (pr (GLab k)) = pr (GLab (sh a b k))) -> shift_ok B cmap rho a b) ->
+      forall (types : list tydecl) (ds : list def) (c1 c2 : N),
+        renaming_guard ds = true ->
+        normalize cmap ds c1 (translate B types ds c1) = normalize cmap ds c2 (translate B types ds c2).
+Proof. exact @normal_form. Qed.
+Print Assumptions C17_normal_form.
+
+Theorem C17_x86_shift_ok :
+  forall rho a b, (forall k, (a < k)%N -> rho (X86.lab k) = X86.lab (sh a b k)) -> shift_ok x86_backend xmap rho a b.
+Proof. exact x86_shift_ok. Qed.
+Print Assumptions C17_x86_shift_ok.
+Theorem C17_a64_shift_ok :
+  forall rho a b, (forall k, (a < k)%N -> rho (A64.lab k) = A64.lab (sh a b k)) -> shift_ok A64.a64_backend amap rho a b.
+Proof. exact a64_shift_ok. Qed.
+Print Assumptions C17_a64_shift_ok.
+Theorem C17_rv_shift_ok :
+  forall rho a b, (forall k, (a < k)%N -> rho (RV.lab k) = RV.lab (sh a b k)) -> shift_ok RV.rv_backend rmap rho a b.
+Proof. exact rv_shift_ok. Qed.
+Print Assumptions C17_rv_shift_ok.
+
+(* the complete routines of the three back ends *)
+Theorem C17_x86_compile_shift :
+  forall (p : prog) (c1 c2 : N),
+    renaming_guard (pdefs p) = true ->
+    x86_compile p c2 = match x86_compile p c1 with
+                       | Ok (r, n, lc') => Ok (shift_labels xmap (pdefs p) c1 c2 r, n, renumber c1 c2 lc')
+                       | Err m => Err m
+                       end.
+Proof. exact x86_compile_shift. Qed.
+Print Assumptions C17_x86_compile_shift.
+Theorem C17_a64_compile_shift :
+  forall (p : prog) (c1 c2 : N),
+    renaming_guard (pdefs p) = true ->
+    A64.a64_compile p c2 = match A64.a64_compile p c1 with
+                           | Ok (r, n, lc') => Ok (shift_labels amap (pdefs p) c1 c2 r, n, renumber c1 c2 lc')
+                           | Err m => Err m
+                           end.
+Proof. exact a64_compile_shift. Qed.
+Print Assumptions C17_a64_compile_shift.
+Theorem C17_rv_compile_shift :
+  forall (p : prog) (c1 c2 : N),
+    renaming_guard (pdefs p) = true ->
+    RV.rv_compile p c2 = match RV.rv_compile p c1 with
+                         | Ok (r, n, lc') => Ok (shift_labels rmap (pdefs p) c1 c2 r, n, renumber c1 c2 lc')
+                         | Err m => Err m
+                         end.
+Proof. exact rv_compile_shift. Qed.
+Print Assumptions C17_rv_compile_shift.
+
+(* without the name-digits guard: no function on label texts relates the outputs at counters 0 and 10 *)
+Theorem C17_translate_shift_refuted :
+  shift_guard_defs all_true all_true collide_defs = true /\
+  forall f : string -> string,
+    match translate x86_backend [] collide_defs 0, translate x86_backend [] collide_defs 10 with
+    | Ok (c0, _), Ok (c10, _) => map (xmap f) c0 <> c10
+    | _, _ => False
+    end.
+Proof. exact translate_shift_refuted. Qed.
+Print Assumptions C17_translate_shift_refuted.
+Theorem C17_renaming_guard_satisfiable :
+  renaming_guard neutral_defs = true /\
+  LabelGen.defs xdefs (match translate x86_backend [] neutral_defs 0 with Ok (c, _) => c | Err _ => [] end)
+    = ["main_"; "Aa_1"; "Aa_1_Bx"; "List_i64_2"; "List_i64_2_Cy"]%string /\
+  LabelGen.defs xdefs (match translate x86_backend [] neutral_defs 10 with Ok (c, _) => c | Err _ => [] end)
+    = ["main_"; "Aa_11"; "Aa_11_Bx"; "List_i64_12"; "List_i64_12_Cy"]%string /\
+  map (rename_label neutral_defs 0 10) ["main_"; "Aa_1"; "Aa_1_Bx"; "List_i64_2"; "List_i64_2_Cy"; "cleanup"; "lab7"]%string
+    = ["main_"; "Aa_11"; "Aa_11_Bx"; "List_i64_12"; "List_i64_12_Cy"; "cleanup"; "lab17"]%string.
+Proof. exact renaming_guard_satisfiable. Qed.
+Print Assumptions C17_renaming_guard_satisfiable.
+
+(* the numbering the run-time check applies before comparing (index of first occurrence) is invariant
+   under every renumbering that is injective on the sequence; applied to the numbers of the generated
+   labels of a run and of its shifted copy *)
+Theorem C17_first_occurrence_numbering_invariant :
+  forall (f : N -> N) (l : list N),
+    (forall x y, In x l -> In y l -> f x = f y -> x = y) -> canon (map f l) = canon l.
+Proof. exact canon_invariant. Qed.
+Print Assumptions C17_first_occurrence_numbering_invariant.
+Theorem C17_first_occurrence_numbering_of_shifted_labels :
+  forall (okS okX : string -> bool) (cut : string -> option (string * string)),
+    (forall T k, okS T = true -> decode_with cut (pr (GTL T k)) = Some (GTL T k)) ->
+    (forall T k X, okS T = true -> okX X = true -> decode_with cut (pr (GCL T k X)) = Some (GCL T k X)) ->
+    forall (c1 c2 : N) (ls : list string),
+      (forall l, In l ls -> known okS okX l) -> (forall k, In k (numbers cut ls) -> (c1 <= k)%N) ->
+      canon (numbers cut (map (rho cut (renumber c1 c2)) ls)) = canon (numbers cut ls).
+Proof. exact canon_numbers_shift. Qed.
+Print Assumptions C17_first_occurrence_numbering_of_shifted_labels.
